@@ -121,12 +121,14 @@ def verify_function(c, registry, timeout_ms=10000, max_paths=None):
     out = dict(key=c.key, props=c.props, obligations=[], error=None, paths=0, notes=[], inlined=[], contract_calls=[],
                solver_seconds=0.0, solver_checks=0)
     try:
-        fi = get_function(c.modname, c.qualname)
+        fi = scenario_info(c) if c.scenario else get_function(c.modname, c.qualname)
     except Exception as e:
         out["error"] = "anchor drift: %s" % e
         out["seconds"] = time.time() - t0
         return out
     out.update(sha256=fi.sha, lines=[fi.lineno, fi.end_lineno])
+    if c.scenario:
+        out["scenario"] = c.scenario
     for ordn, spec in c.loops.items():
         if ordn >= len(loops_of(fi.node)):
             out["error"] = "anchor drift: contract has an invariant for loop %d, function has %d loops" % (
@@ -176,6 +178,8 @@ def verify_function(c, registry, timeout_ms=10000, max_paths=None):
                 v = sort.fresh(ctx, name)
                 ghosts[name] = v
                 ctx.inputs[name] = (sort, v)
+            if getattr(c, "wire", None):
+                c.wire(bound, ghosts)
             old = c.snapshot(bound)
             # inputs are decoded from their entry snapshot (parameters may be mutated)
             for name, sort in c.params.items():
@@ -247,6 +251,14 @@ def verify_function(c, registry, timeout_ms=10000, max_paths=None):
     return out
 
 
+def scenario_info(c):
+    import ast as _ast
+    from .extract import FuncInfo
+    tree = _ast.parse(c.scenario)
+    node = tree.body[0]
+    return FuncInfo(c.modname, c.qualname, node, c.scenario)
+
+
 def run_fragment(c, I, fi, node, bound):
     from .symexec import Frame
     fr = Frame(fi, dict(bound), real_module(fi.modname), loopspecs=c.loops)
@@ -299,6 +311,8 @@ def frame_obligations(c, ctx, I, bound, old):
                     continue
                 if isinstance(cv, SObj) and isinstance(ov, SObj):
                     walk(p, cv, ov)
+                elif isinstance(cv, dict) and isinstance(ov, dict) or (isinstance(cv, list) and isinstance(ov, list)):
+                    walk(p, cv, ov)
                 elif isinstance(cv, SList) or isinstance(ov, SBytes) and isinstance(cv, SList):
                     ctx.oblige("frame:%s" % p, equal(I, cv.snapshot(), ov))
                 elif isinstance(cv, (SObj,)) or isinstance(ov, SObj):
@@ -316,9 +330,31 @@ def frame_obligations(c, ctx, I, bound, old):
         elif isinstance(cur, SList):
             if not allowed(path):
                 ctx.oblige("frame:%s" % path, equal(I, cur.snapshot(), o))
-        elif isinstance(cur, list):
-            if not allowed(path):
-                ctx.oblige("frame:%s" % path, equal(I, cur, o))
+        elif isinstance(cur, dict) and isinstance(o, dict):
+            if allowed(path):
+                return
+            if set(cur.keys()) != set(o.keys()):
+                ctx.oblige("frame:%s" % path, False, "dict keys changed")
+                return
+            for k in cur:
+                leaf(path + "[%r]" % (k,), cur[k], o[k])
+        elif isinstance(cur, (list, tuple)) and isinstance(o, (list, tuple)):
+            if allowed(path):
+                return
+            if len(cur) != len(o):
+                ctx.oblige("frame:%s" % path, False, "length changed")
+                return
+            for i, (a, b) in enumerate(zip(cur, o)):
+                leaf(path + "[%d]" % i, a, b)
+
+    def leaf(p, cv, ov):
+        if isinstance(cv, (SObj, SList, dict, list, tuple)) and not (isinstance(cv, tuple) and not any(isinstance(x, (SObj, dict, list)) for x in cv)):
+            walk(p, cv, ov)
+            return
+        try:
+            ctx.oblige("frame:%s" % p, equal(I, cv, ov))
+        except SymError:
+            ctx.oblige("frame:%s" % p, cv is ov)
 
     for name, v in bound.items():
         walk(name, v, getattr(old, name))
@@ -431,7 +467,12 @@ def native_run(c, conc):
     o.old = NS(copy.deepcopy(dict(native)))
     o.args = native
     try:
-        if c.native is not None:
+        if c.native is None and c.scenario:
+            g = dict(real_module(c.modname).__dict__)
+            exec(compile(c.scenario, "<scenario>", "exec"), g)
+            name = scenario_info(c).node.name
+            o.result = g[name](*native.values())
+        elif c.native is not None:
             o.result = c.native(native)
             if isinstance(o.result, WithTrace):
                 o.trace = o.result.trace
